@@ -21,7 +21,7 @@ inductive NumT where
 inductive Action where
   | asIs
   | conv (t : NumT)                -- v = T(tv)
-  | convCheckedKeep (t : NumT)     -- v = T(tv); if float64(T(tv)) != tv { err } — value kept
+  | convCheckedKeep (t : NumT)     -- v = T(tv); if K(T(tv)) != tv { err } (K the arm's own type) — value kept
   | failNil                        -- err; v = nil
   | fmtInt                         -- strconv.Itoa(int(tv)) / FormatInt(int64(tv), 10)
   | fmtFloat (bits : Nat)
@@ -150,6 +150,9 @@ def applyAction (ext : Ext F) (a : Action) (v : GoVal F) : GoVal F × Bool :=
         | some n => if (t == .i32 && inRange32 n) || (t == .i64 && inRange64 n) then (convTo ext t v, false)
                     else (convTo ext t v, true)
         | none => (convTo ext t v, true))
+     | .int _ n =>
+       -- `v = T(tv); if K(T(tv)) != tv { err }` on an integer: an error exactly when the value does not fit
+       if (t == .i32 && inRange32 n) || (t == .i64 && inRange64 n) then (convTo ext t v, false) else (convTo ext t v, true)
      | _ => (convTo ext t v, false))
   | .failNil => (.nil, true)
   | .fmtInt =>
